@@ -416,6 +416,10 @@ func (ds *Dataset) StoreEntitiesWithTransaction(
 		if !isnew && !isDifferent && !isDifferentLocally {
 			continue
 		}
+		// identical to the previous occurrence of the same entity in this batch
+		if _, found := localLatests[rid]; found && !isDifferentLocally {
+			continue
+		}
 		localLatests[rid] = jsonData
 
 		// store entity and the log entry
